@@ -107,22 +107,20 @@ Theorem C03_cells_checked : cells_ok gen_cells = true.
 Proof. exact cells_checked. Qed.
 Print Assumptions C03_cells_checked.
 
-(* C03_keys_by_value_partial.  The machines compare cache keys by value, i.e. assume a stored key is a value
-   captured at call time.  Tie to the source: every assignment to a cache-key attribute (_PolyHelper.poly_order,
-   _PolyHelper2D.poly_order / max_cross, SplineBasis(2D).num_knots / spline_degree), as classified by the
-   translator from the CURRENT source, stores a constant, a copy or an immutable scalar -- EXCEPT the attributes
-   listed in Instantiate.by_reference_known, which the current source keeps by reference (findings
-   leak:1d:num_knots-array-mutated, leak:2d:num_knots-array-mutated, leak:2d:spline_degree-array-mutated).
-   Full statement (holds once those are repaired and the list is emptied):
-     forall c a m k, In (c, a, m, k) gen_key_stores -> kstore_by_value k = true. *)
-Theorem C03_keys_by_value_partial :
-  keys_complete gen_key_stores && keys_ok gen_key_stores = true /\
-  (forall c a m k, In (c, a, m, k) gen_key_stores -> in_known c a = false -> kstore_by_value k = true).
+(* C03_keys_by_value.  The machines compare cache keys by value, i.e. assume a stored key is a value captured at
+   call time.  Tie to the source: EVERY assignment to a cache-key attribute (_PolyHelper.poly_order,
+   _PolyHelper2D.poly_order / max_cross, SplineBasis(2D).num_knots / spline_degree -- all must be present), as
+   classified by the translator from the CURRENT source (names resolved through their bindings and through the call
+   sites of the cache classes' methods), stores a constant, a copy (np.array(...), int(...), tuple(...), .item(), ...)
+   or an immutable scalar (_check_scalar_variable(..., two_d=False)); never the caller's own array. *)
+Theorem C03_keys_by_value :
+  keys_complete gen_key_stores = true /\
+  (forall c a m k, In (c, a, m, k) gen_key_stores -> kstore_by_value k = true).
 Proof.
-  split; [exact keys_checked|].
-  apply keys_ok_sound. pose proof keys_checked as H. apply Bool.andb_true_iff in H. exact (proj2 H).
+  split; [|exact keys_by_value].
+  pose proof keys_checked as H. apply Bool.andb_true_iff in H. exact (proj1 H).
 Qed.
-Print Assumptions C03_keys_by_value_partial.
+Print Assumptions C03_keys_by_value.
 
 (* soundness of the check, for ANY table: every method found in a checked table is modelled, i.e.
    instantiates (for all argument values) to an operation of the 1-D resp. 2-D machine *)
